@@ -37,7 +37,8 @@ def scheme_table():
     t["sha256_crypt"] = dict(base=pre, custom=True, P=dict(P(1000, 999999999, 40000), maxD=50000),
                              kws=[kw(minA=1500), kw(maxA=1500), kw(minA=1500, maxA=2500), kw(d=1800), kw(d=999), kw(minA=600000),
                                   kw(minA=3000, maxA=2500), kw(d=3000, maxA=2500), kw(varyK="int", varyV=100),
-                                  kw(varyK="pct", varyV=10, minA=1900), kw(varyK="pct", varyV=25), kw(varyK="pct", varyV=100), kw(varyK="int", varyV=1)])
+                                  kw(varyK="pct", varyV=10, minA=1900), kw(varyK="pct", varyV=25), kw(varyK="pct", varyV=100), kw(varyK="int", varyV=1),
+                                  kw(rounds=2000), kw(rounds=2200), kw(rounds=2200, minA=1500)])
     t["bcrypt"] = dict(base=H.bcrypt, P=P(4, 31, H.bcrypt.default_rounds, cost="log2"),
                        kws=[kw(minA=5), kw(maxA=5), kw(minA=5, maxA=6), kw(d=4), kw(d=3), kw(minA=13), kw(minA=7, maxA=5), kw(varyK="int", varyV=1)])
     t["md5_crypt"] = dict(base=H.md5_crypt, P=None, kws=[kw(minA=5)])
@@ -114,7 +115,7 @@ def render(cfg, rnd=None, partial=False, has_schemes=True):
     for o in cfg["opts"]:
         pre = "" if o["cat"] == "none" else o["cat"] + "__"
         k = o["kw"]
-        for fld, name in (("minA", "min_rounds"), ("maxA", "max_rounds"), ("def", "default_rounds")):
+        for fld, name in (("minA", "min_rounds"), ("maxA", "max_rounds"), ("def", "default_rounds"), ("rounds", "rounds")):
             if k[fld] != UNSET:
                 d[f"{pre}{o['name']}__{name}"] = k[fld] if not rnd or rnd.random() < .7 else str(k[fld])
         vkey = f"{pre}{o['name']}__vary_rounds"
@@ -129,11 +130,15 @@ def render(cfg, rnd=None, partial=False, has_schemes=True):
 
 def norm_dict(d):
     out = {}
+    d = dict(d)
+    for k in [k for k in d if k.endswith("__rounds")]:
+        if isinstance(d[k], str) and d[k].isdigit():
+            d[k] = int(d[k])        # (the alias is exported as it was given; a number written as text is the same setting)
     for k, v in d.items():
         if k == "schemes":
             v = [getattr(x, "name", x) for x in v]
         elif isinstance(v, float):
-            v = round(v, 6)
+            v = ("float", round(v, 6))          # 1.0 (100 %) and 1 (one round) are different settings
         elif isinstance(v, tuple):
             v = list(v)
         out[k] = v
